@@ -68,7 +68,7 @@ func ReadResponse(r io.Reader, apiKey ApiKey, apiVersion int16) (correlationID i
 	if res.flexible {
 		// In the flexible case, there's a tag buffer at the end of the response header
 		taggedCount := int(d.readUnsignedVarInt())
-		for i := 0; i < taggedCount && d.remain > 0; i++ {
+		for i := 0; i < taggedCount && !d.done(); i++ {
 			d.readUnsignedVarInt() // tagID
 			size := d.readUnsignedVarInt()
 
